@@ -1078,6 +1078,8 @@ func main() {
 		}
 		st.Hit("go-oracle:big-exact")
 	}
+	// the exact boundary of math/big's limits (SpecBig.v big_limits_json), both sides
+	runLimitOracle(st, thorough)
 
 	// ---------- addresses ----------
 	eipVectors := []string{
